@@ -7,13 +7,14 @@ import subprocess
 import sys
 
 pid = sys.argv[1]
-BENIGN = len(sys.argv) > 2 and sys.argv[2] == "benign"
+BENIGN = len(sys.argv) > 2 and sys.argv[2] in ("benign", "benign2")
+BENIGN2 = len(sys.argv) > 2 and sys.argv[2] == "benign2"
 ROUND2 = len(sys.argv) > 2 and sys.argv[2] == "round2"
 ROUND3 = len(sys.argv) > 2 and sys.argv[2] == "round3"
 ROUND4 = len(sys.argv) > 2 and sys.argv[2] == "round4"
 ROUND5 = len(sys.argv) > 2 and sys.argv[2] == "round5"
 ROUND6 = len(sys.argv) > 2 and sys.argv[2] == "round6"
-suffix = "_r2" if ROUND2 else ("_r3" if ROUND3 else ("_bn" if BENIGN else ("_r4" if ROUND4 else ("_r5" if ROUND5 else ("_r6" if ROUND6 else "")))))
+suffix = "_bn2" if BENIGN2 else "_r2" if ROUND2 else ("_r3" if ROUND3 else ("_bn" if BENIGN else ("_r4" if ROUND4 else ("_r5" if ROUND5 else ("_r6" if ROUND6 else "")))))
 root = os.path.dirname(os.path.dirname(os.path.abspath(__file__)))
 prop = next(json.loads(l) for l in open(os.path.join(root, "properties.jsonl")) if json.loads(l)["id"] == pid)
 wt = f"/tmp/mut_{pid}{suffix}"
@@ -26,6 +27,7 @@ This is a THIRD round: earlier rounds tried single-call defects and defects that
 This is a FOURTH round. Assume the checker is STRONG: it drives the real code with exhaustive small cases and many random ones, with a share of big cases (20x20 grids, 15+ agents, 1000+ agents under a manager, ranges of 15+, episodes of 500 steps), with multi-episode histories on one object, second objects alive in the same process, options changed through setters, numpy and Python representations of the same values, and it compares EVERY observable result and the state after every call with an executable reference model. Find what such a checker would plausibly still miss. Prefer: (a) a defect placed OUTSIDE the anchored files - in a base class, the agent classes, a utility, a registry, a helper the anchored code calls, or in the interplay of two components or wrapper layers - that nevertheless breaks THIS property; (b) a defect that needs a rare CONJUNCTION of three or more independent conditions (particular agent kinds in a particular dictionary order, with a particular option, at a particular position or value); (c) code reached only through an optional keyword argument, a rarely used public method, property or class-level default; (d) particular numeric values (exact ties, exact boundaries such as health exactly equal to attack strength, accuracy exactly 1.0 or 0.0, a draw landing exactly on a threshold, negative zero, values that differ only beyond float32 precision); (e) a dependence on object identity, hash order or garbage left behind by an exception raised in an earlier call. The defect must still be realistic (a plausible maintainer slip) and must still leave the test suite unchanged.""" if ROUND4 else ("""
 This is a SIXTH round. Assume the checker is STRONG: it drives the real code with exhaustive small cases and many random ones (a share of them big), with multi-episode histories on one object, second objects alive in the same process, options changed through setters, caller-side edits of everything handed in or handed back, numpy and Python representations of the same values, and it compares every observable result and the state after every call with an executable reference model. Find what it would plausibly still miss. This round is about FAULTS, INTERLEAVINGS and COOPERATING SITES: (a) a FAULT AT A PARTICULAR POINT - an exception raised part-way through a multi-step operation (by the wrapped simulation, by one bad item among good ones in a dictionary, by a rejected setter, by a component) after which the object is used again legally and now misbehaves because the interrupted operation left half-updated state; (b) TWO COOPERATING SITES that each look fine alone (a producer that changes what it stores and a consumer that changes how it reads, a default changed in one place and relied on in another, a helper that starts returning a view / generator / other type and one caller of several that cannot cope); (c) a particular INTERLEAVING of public calls that are usually made in a fixed order (a getter called twice or not at all between steps, get_obs before the first reset or after the last step, reset called twice in a row or in the middle of an episode, step after the episode finished, render or a property read in between, two wrappers / managers sharing one simulation used alternately); (d) a MULTI-STEP SEQUENCE in which the first steps only prepare the state (an agent dies, a counter passes a value, a buffer fills) and the defect shows several calls later. The defect must still be realistic (a plausible maintainer slip) and must still leave the test suite unchanged.""" if ROUND6 else ""))))
 if BENIGN:
+    B2 = ("""      THIS ROUND (benign2): put the three changes where objects are CONFIGURED and where calls can FAIL - the public property setters and their validation code (validate into a local and commit at the end, a helper extracted, checks re-ordered where the order cannot matter, a message re-worded, `type(x) is T` kept as it is), constructors, and exception paths (a try/finally that restores what was there, an early check that can only fire on what would be rejected anyway, an exception re-raised unchanged). A rejected assignment must still leave the object exactly as it was, an accepted one must store exactly what it stored before, and an interrupted call must leave exactly the state it left before. Use the three kinds below, but at such sites.\n""" if BENIGN2 else "")
     print(f"""You are helping to evaluate a verification effort: its checks must stay QUIET on harmless changes. You get ONE semantic property of the Python package LLNL/Abmarl and your own scratch git worktree of its repository at {wt} (a detached checkout; work ONLY there; do NOT read or use anything under /verif or /repo).
 
 The property:
@@ -43,7 +45,7 @@ Your task: produce THREE independent HARMLESS changes to the code the property i
   (1) keeps the property TRUE for every input, schedule and history, and keeps the behaviour observable through the PUBLIC API exactly the same (same return values, same exceptions raised in the same situations, same consumption of numpy's global random stream in the same order, same contents of public attributes),
   (2) still leaves the test suite exactly as it was: `cd {wt} && /venv/bin/python -m pytest -q -p no:cacheprovider --timeout=900 --continue-on-collection-errors 2>&1 | tail -5` gives `1 failed, 155 passed, 12 errors` before and after,
   (3) is NOT trivial: it must really restructure code on the paths the property exercises. Use three different kinds, one each:
-      m1: an internal refactoring — loops rewritten as comprehensions or the other way round, a helper function or method extracted or inlined, early returns, conditions reordered where order does not matter, local variables renamed, a private helper attribute or private method (leading underscore, not part of the documented interface) renamed or replaced by an equivalent structure;
+{B2}      m1: an internal refactoring — loops rewritten as comprehensions or the other way round, a helper function or method extracted or inlined, early returns, conditions reordered where order does not matter, local variables renamed, a private helper attribute or private method (leading underscore, not part of the documented interface) renamed or replaced by an equivalent structure;
       m2: an equivalent algorithm or data structure — a different but equivalent formula, a set instead of a list where order is not observable, a cached or precomputed value that is provably always fresh, numpy vectorisation of a Python loop or the reverse, integer arithmetic instead of equivalent comparisons;
       m3: a change of things the property does not speak about — wording of error and assertion messages, docstrings and comments, added type or sanity checks that can never fire on legal use, logging, rendering code, default colours / render shapes, an added keyword argument with a default that preserves behaviour, an added public helper method.
 For each change i in {{1,2,3}} deliver, under {wt}/_mutation/m<i>/ : patch.diff (`git diff` of ONLY that change against HEAD; make change 1, save its diff, `git checkout -- .`, then the next), and README.md (what was changed and the argument why behaviour is unchanged; the test-suite tail with the change). Also write ONE program {wt}/_mutation/demo.py exercising the changed code paths through the public API with fixed seeds (np.random.seed) and printing a digest (e.g. a hash of all observations / states / outputs over a few hundred operations); run it on the clean checkout and with each change applied and confirm in each README that the digest is IDENTICAL (if `abmarl.sim.wrappers` is needed: gymnasium 1.3 lacks `gymnasium.spaces.box.get_inf`, define it before importing: `import gymnasium.spaces.box as b; import numpy as np; b.get_inf = getattr(b,'get_inf', lambda dtype, sign: (np.inf if sign=='+' else -np.inf) if np.dtype(dtype).kind=='f' else (np.iinfo(dtype).max-2 if sign=='+' else np.iinfo(dtype).min+2))`; run as `PYTHONPATH=<checkout> /venv/bin/python demo.py`).
